@@ -21,6 +21,16 @@ CHECKS = {
          "Held on 320 (quick) / 4000 (thorough) seeded failure scripts x maxretries {1,2,3,8} x maxretrydelay {0,1,default} x concurrency 1-8. Lower bounds on waits are measured from stamps taken before the answer is released (sound under load); upper bounds are judged on the delay value the code computed (hook), never on elapsed time.",
          "Back-off sleeps are scaled by 0.01 through the verif hook (the unscaled value is what is logged and judged); actions expiring within 5 s are exercised but not judged.",
          "DESIGN.md §5 C15"),
+ "C03": ("exploration",
+         "runtime monitor: generated histories pushed through the real pre-push hook / git lfs push against an in-driver fake LFS server (or file:// standalone remote); brute-force reference model over plain git plumbing vs server store",
+         "Held on 40 (quick) / 400 (thorough) seeded histories x 4-8 push steps each (branch/--all/--tags/forced/deleted refs/second clone/lfs push/missing-object clause) x batch sizes x transports; after every successful step every pointer of every commit reachable on the remote is looked up in the server store (SHA-256 checked).",
+         "Family-a invariant assumes the fake server never loses objects. Git 2.39.5. The re-pointed-remote scenario is a recorded known finding (known_findings.txt).",
+         "DESIGN.md §5 C03"),
+ "C17": ("exploration",
+         "runtime monitor: a `git` shim records argv+stdin of every `git credential` exchange; generated credential maps through the real creds helper in-process plus end-to-end runs of the git-lfs binary against a raw TCP server; oracle = multiset equality of protocol lines / refusal with no process started",
+         "Held on 24k (quick) / 1M (thorough) generated credential maps (4k / 40k spawning real exchanges) plus 56 / 1500 end-to-end runs with percent-encoded URL parts and raw WWW-Authenticate headers.",
+         "Keys are the protocol's fixed attribute names (values are adversarial). Header bytes that Go's HTTP client itself rejects never reach git-lfs and are decided by the in-process part.",
+         "DESIGN.md §5 C17"),
 }
 
 NOT_YET = {}
